@@ -18,6 +18,7 @@ CONFIG = {
     "C11": dict(gen=["Models"], drivers=["ModelsF", "SpreadPoint"], extra_prop_files=["PgVerif/Tie/Models.lean"]),
     "C02": dict(gen=["Units"], drivers=["IsoState"]),
     "C03": dict(gen=["Units"], drivers=["Access"]),
+    "C04": dict(gen=[], drivers=[]),
     "C05": dict(gen=[], drivers=["Json"]),
     "C06": dict(gen=[], drivers=["Json"]),
     "C07": dict(gen=[], drivers=["TextCodec"]),
